@@ -8,15 +8,20 @@ import Asn1cModel.Proofs.FixerMisc
   Spec = `Spec.Fix` (X.680 distinct-tag rules over `HasOuter`, ENUMERATED numbering, …).
 
   Shape of the result: on an explicit decidable domain the fixer's verdict is exactly
-  `¬ Spec.consistent`.  The domain excludes three regions where the unchanged asn1c violates
-  the property; each has a counter-example theorem below and a witness replayed on the real
-  asn1c by the check:
+  `¬ Spec.consistent`.  The domain excludes two regions where asn1c violates the property (each
+  has a counter-example theorem below and a witness replayed on the real asn1c by the check)
+  and the region where the model runs out of fuel:
     * `cut`     — `_asn1f_compare_tags` answered through its TM_RECURSION guard
                    (`typeref_then_choice_ref_missed_cex`: a clash is missed)
     * numbering — the code numbers un-numbered enumeration items max+1 instead of X.680 §20.3
                    (`enum_numbering_rejects_valid_cex`, `enum_numbering_accepts_duplicate_cex`)
-    * fuel      — a CHOICE that contains itself without an intervening tag: the C code recurses
-                   without bound (`recursive_untagged_choice_cex`; asn1c dies with SIGSEGV)
+    * fuel      — a type that contains itself without an intervening tag: the C code's
+                   `_asn1f_compare_tags` stops at its depth guard with a FATAL diagnostic, the model
+                   runs out of fuel; both report reject (`recursive_untagged_choice_rejected`: the
+                   verdict is the right one on the former witness of the stack overflow, and the
+                   check demands a rejection by exit status on every such module).  The guard
+                   stays in `Dom_C11` because "out of fuel implies inconsistent" is not proved in
+                   general.
 -/
 namespace Asn1c.Props.C11
 open Asn1c.Fix Asn1c.Impl.Fixer Asn1c.Spec.Fix Asn1c.Proofs.Fixer
@@ -308,12 +313,14 @@ def recModule : Module := ⟨.explicit, [
   ⟨"T0", .constr none .choice
       [.mk "a" (.ref none "T0") .mandatory, .mk "b" (P .integer) .mandatory] false []⟩]⟩
 
-/-- **Finding (unbounded recursion).**  Alternative a has every tag of T0, in particular that
-    of b, so the module is ambiguous; the model's tag comparison runs out of fuel — the C
-    function recurses until the stack is exhausted (asn1c dies instead of diagnosing). -/
-theorem recursive_untagged_choice_cex :
-    fixerRun recModule = none ∧ ¬ consistent recModule := by
-  refine ⟨by decide +kernel, ?_⟩
+/-- **Former finding (unbounded recursion), repaired.**  Alternative a has every tag of T0, in
+    particular that of b, so the module is ambiguous.  The model's tag comparison runs out of
+    fuel — the C function now stops at its depth guard with "the type is defined through itself"
+    instead of recursing until the stack is exhausted — and the verdict is the one the
+    standard demands: reject. -/
+theorem recursive_untagged_choice_rejected :
+    fixerRun recModule = none ∧ fixerVerdict recModule = .reject ∧ ¬ consistent recModule := by
+  refine ⟨by decide +kernel, by decide +kernel, ?_⟩
   intro hc
   have hnode := hc (.constr none .choice
       [.mk "a" (.ref none "T0") .mandatory, .mk "b" (P .integer) .mandatory] false [])
